@@ -521,7 +521,9 @@ func freeRunning(r *ev.Run, i int) *p2prig.Scenario {
 	s.Engine = "legacy"
 	s.HonestLen = 200 + rng.Intn(600)
 	s.CheckpointHeights = []int32{int32(20 + rng.Intn(100))}
-	s.Nodes = []p2prig.NodeSpec{{Kind: "honest", DisconnectAtMsg: 4 + rng.Intn(5)}, {Kind: "laggard", Lag: 1 + rng.Intn(5)}, {Kind: "forker", ForkAt: 150 + rng.Intn(20), ForkLen: 2 + rng.Intn(6)}, {Kind: "laggard", Lag: 2, Inbound: true}}
+	// (the other nodes accept two connections each: with eight outbound slots and no limit they can take them all, and the
+	// service would never be connected to the honest peer - seen as an inconclusive scenario in about one run in four)
+	s.Nodes = []p2prig.NodeSpec{{Kind: "honest", DisconnectAtMsg: 4 + rng.Intn(5)}, {Kind: "laggard", Lag: 1 + rng.Intn(5), MaxLive: 2}, {Kind: "forker", ForkAt: 150 + rng.Intn(20), ForkLen: 2 + rng.Intn(6), MaxLive: 2}, {Kind: "laggard", Lag: 2, Inbound: true}}
 	s.WaitReconnect = true
 	s.Announce = []p2prig.AnnounceSpec{{Blocks: 1, Mode: "inv", Nodes: []int{0, 1}}, {Blocks: 2, Mode: "headers"}, {Blocks: 1, Mode: "conformant", Nodes: []int{0, 3}},
 		// the peer on the losing branch announces its own tip: the service fetches that branch (new headers, all stale)
